@@ -1,7 +1,7 @@
 (* Proofs/BasicProofs.v — lemmas behind Props/C13, C14, C15.  The statements marked TOP are the
    ones the Props files close with [exact]; their wording is fixed. *)
 From Coq Require Import ZArith List Bool Lia ZifyBool.
-Require Import PyBase GenBasic BasicFacts Basic Mo5Basic AsciiBasic PyFacts.
+Require Import PyBase GenBasic BasicFacts Basic Mo5Basic AsciiBasic PyFacts BasicLemmasA BasicLemmasB BasicLemmasC.
 Import ListNotations.
 Open Scope Z_scope.
 Ltac Zify.zify_post_hook ::= Z.to_euclidean_division_equations.
@@ -9,16 +9,16 @@ Ltac Zify.zify_post_hook ::= Z.to_euclidean_division_equations.
 (* ---------------- TOP: C15 ---------------- *)
 Theorem ascii_basic_shape : forall lines : list (list Z),
   lst_to_ascii lines = ascii_basic_spec lines.
-Admitted.
+Proof. exact lst_to_ascii_spec. Qed.
 
 Theorem ascii_basic_7bit : forall lines : list (list Z),
   Forall (Forall (fun c => 0 <= c)) lines ->
   Forall (fun b => 0 <= b < 128) (lst_to_ascii lines).
-Admitted.
+Proof. exact ascii_7bit. Qed.
 
 Theorem listing_shape : forall (dos : bool) (data : list Z),
   ascii_to_lst dos data = listing_spec dos data.
-Admitted.
+Proof. exact ascii_to_lst_spec. Qed.
 
 (* never an empty line: the output is a sequence of non-empty, separator-free pieces, each
    followed by the line ending *)
@@ -26,14 +26,14 @@ Theorem listing_no_empty_line : forall (dos : bool) (data : list Z),
   exists pieces : list (list Z),
     ascii_to_lst dos data = flat_map (fun p => p ++ eol_of dos) pieces /\
     Forall (fun p => p <> [] /\ existsb is_crlf p = false) pieces.
-Admitted.
+Proof. exact listing_pieces. Qed.
 
 (* listing -> ASCII BASIC -> listing returns the non-blank right-trimmed 7-bit lines *)
 Theorem ascii_round_trip : forall (dos : bool) (lines : list (list Z)),
   Forall (fun l => existsb is_crlf (rstrip_py l) = false) lines ->
   ascii_to_lst dos (lst_to_ascii lines) =
   flat_map (fun l => l ++ eol_of dos) (filter nonempty (map (fun l => keep7 (rstrip_py l)) lines)).
-Admitted.
+Proof. intros dos lines H. now apply ascii_round. Qed.
 
 (* ---------------- TOP: C13 ---------------- *)
 Definition numbered_line (l : list Z) : bool :=
@@ -42,22 +42,22 @@ Definition numbered_line (l : list Z) : bool :=
 Theorem program_structure : forall lines : list (list Z),
   forallb numbered_line lines = true ->
   tokenize_program lines = Ok (mo5_image (map (fun l => (line_number l, parse_line (line_text l))) lines)).
-Admitted.
+Proof. intros lines H. apply tokenize_program_spec. exact H. Qed.
 
 (* the independent structural parser accepts the image and returns the records *)
 Theorem program_image_parses : forall recs : list (Z * list Z),
   Forall (fun r => 0 <= fst r < 65536 /\ Forall (fun b => 1 <= b < 256) (snd r)) recs ->
   program_records (mo5_image recs) = Some recs.
-Admitted.
+Proof. exact program_records_spec. Qed.
 
 (* reference encoder: on delimited lexeme lists the tokenizer's output is ref_encode *)
 Theorem reference_encoding : forall lx : list lexeme,
   lex_delimited lx = true -> parse_line (ref_source lx) = ref_encode lx.
-Admitted.
+Proof. exact parse_line_ref. Qed.
 
 (* ---------------- TOP: C14 ---------------- *)
 Theorem tokenize_detok : forall lines : list (list Z),
   forallb listing_line_ok lines = true ->
   exists img, tokenize_program lines = Ok img /\
     detok img = Some (map (fun l => (line_number l, upper_outside_strings false (line_text l))) lines).
-Admitted.
+Proof. exact tokenize_detok_lines. Qed.
